@@ -263,6 +263,23 @@ TRIGGERS = {
     "bad-lock-with-statement": {"stmt": True, "variants": [("import threading\n", "with threading.Lock():\n    pass"),
                                                            ("from threading import Lock\n", "with Lock():\n    pass")],
                                 "declined": [("import threading\n", "with threading.Lock(), open('f') as g:\n    pass")]},
+    "django-json-response-type": {"variants": [("import json\nfrom django.http import HttpResponse\n", "HttpResponse(json.dumps(d))"),
+                                               ("import json\nimport django.http\n", "django.http.HttpResponse(json.dumps(d))"),
+                                               ("from json import dumps\nfrom django.http import HttpResponse\n", "HttpResponse(dumps(d))")],
+                                  "hetero": [("import json\nfrom django.http import HttpResponse\n", "HttpResponse(json.dumps(d), status=200)"),
+                                             ("import json\nfrom django.http import HttpResponse\n", "HttpResponse(content=json.dumps(d))")]},
+    # Django settings codemods: the rule is restricted to files named settings.py and the transformer to settings.py files whose
+    # grandparent directory holds a manage.py; every program is its own little site <dir>/manage.py + <dir>/app/settings.py
+    "django-debug-flag-on": {"settings": True, "variants": [
+        "DEBUG = True", "SECRET_KEY = 'x'\nDEBUG = True\nALLOWED_HOSTS = []", "DEBUG = True  # development only",
+        "import os\nif os.environ.get('DEV'):\n    DEBUG = True\nelse:\n    DEBUG = False",
+        "DEBUG = True\nTEMPLATE_DEBUG = DEBUG\nDEBUG = True", "DEBUG = (\n    True\n)", "A = 1; DEBUG = True"],
+        "no_manage": ["DEBUG = True"]},
+    "django-session-cookie-secure-off": {"settings": True, "file_level": True, "variants": [
+        "SECRET_KEY = 'x'", "SESSION_COOKIE_SECURE = False", "SECRET_KEY = 'x'\nSESSION_COOKIE_SECURE = not True\nX = 1",
+        "SESSION_COOKIE_SECURE = None", "SESSION_COOKIE_SECURE = False\nY = 2\nSESSION_COOKIE_SECURE = 0"],
+        "fixed": ["SESSION_COOKIE_SECURE = True", "X = 1\nSESSION_COOKIE_SECURE = True\n"],
+        "no_manage": ["SECRET_KEY = 'x'"]},
     "upgrade-sslcontext-minimum-version": {"stmt": True, "variants": [
         ("import ssl\nctx = ssl.SSLContext(ssl.PROTOCOL_TLS_CLIENT)\n", "ctx.minimum_version = ssl.TLSVersion.SSLv3")]},
 }
@@ -330,6 +347,22 @@ def build_search_project(rng, spec):
         k[0] += 1
         files[f"pkg/m{k[0]:02d}_{tag}.py"] = {"src": header + "\n" + body + ("\n" if not body.endswith("\n") else ""), "tag": tag, "declined": declined}
 
+    if spec.get("settings"):
+        def site(body, tag, manage=True, **kw):
+            k[0] += 1
+            d = f"s{k[0]:02d}_{tag}"
+            files[f"{d}/app/settings.py"] = {"src": body + ("" if body.endswith("\n") else "\n"), "tag": tag, "declined": False, **kw}
+            if manage:
+                files[f"{d}/manage.py"] = {"src": "import sys\n", "tag": "aux", "declined": True}
+            else:
+                files[f"{d}/app/other.py"] = {"src": "import sys\n", "tag": "aux", "declined": True}
+        for vi, body in enumerate(spec["variants"]):
+            site(body, f"v{vi}_module")
+        for vi, body in enumerate(spec.get("fixed", [])):
+            site(body, f"fixed{vi}", fixed=True)
+        for vi, body in enumerate(spec.get("no_manage", [])):
+            site(body, f"nomanage{vi}", manage=False, no_manage=True)
+        return files
     is_stmt = spec.get("stmt", False)
     for vi, (header, e) in enumerate(spec["variants"]):
         if is_stmt:
@@ -466,6 +499,10 @@ def changed_new_lines(old: str, new: str):
 def classify_not_rewritten(cm, info, L=None):
     """narrow classes for flagged-but-untouched shapes that the property does not list as declined"""
     import re
+    if info.get("no_manage"):
+        return f"kf_settings_py_without_manage_py:{cm._internal_name}"
+    if info.get("fixed"):
+        return f"kf_rule_flags_fixed_form:{cm._internal_name}"
     if cm._internal_name == "lazy-logging":
         text = info["src"] if L is None else "\n".join(info["src"].splitlines()[L[0] - 1:L[2]])
         m = re.search(r'\(\s*"[^"%]*" \+ (\w+)\s*\)', text)
@@ -546,9 +583,13 @@ def run_search(ctx, codemods):
             # (a) flagged and not a declined shape => rewritten at that location, or the file is listed as failed
             if before and not info["declined"] and fn not in failed:
                 old_touched = changed_old_lines(info["src"], new)
+                file_level = TRIGGERS.get(cm._internal_name, {}).get("file_level", False)
                 for L in before:
                     hit = changed and any(L[0] <= ln <= L[2] for ln in changes.get(fn, [])) and \
                         any(L[0] <= ln <= L[2] for ln in old_touched)
+                    if file_level:
+                        # the rule marks the FILE (`pattern-regex: ^`): rewritten = the file changed and a change is reported
+                        hit = changed and bool(changes.get(fn))
                     if not hit:
                         ctx.violation(classify_not_rewritten(cm, info, L),
                                       f"{cm.id} {fn}: the codemod's own rule flags {L} in\n{info['src']}\nbut the run neither rewrote that "
@@ -567,7 +608,10 @@ def run_search(ctx, codemods):
                         and not any((B[0], B[1]) == (L[0], L[1]) for B in before) for L in inside)
                     if nested:
                         ctx.count(f"search:{cm._internal_name}:nested_still_flagged")
-                    cls = f"kf_nested_selected_calls:{cm._internal_name}" if nested else (
+                    file_marker = TRIGGERS.get(cm._internal_name, {}).get("file_level", False) and \
+                        all(L[0] == 1 and (L[0], L[1]) == (L[2], L[3]) for L in inside)
+                    cls = f"kf_rule_flags_fixed_form:{cm._internal_name}" if file_marker else \
+                        f"kf_nested_selected_calls:{cm._internal_name}" if nested else (
                         f"kf_inner_match_reported_only_after:{cm._internal_name}" if hidden else "kf_flagged_after_rewrite")
                     ctx.violation(cls,
                                   f"{cm.id} {fn}: after the run the codemod's own rule still flags {inside} inside rewritten lines "
